@@ -25,6 +25,7 @@ DOC = {
  "C13.R6": "siblings agree: the five route_message bodies (choose -> enqueue | Backlog(job)); the two supervision arms of the factory; the limiter wrapper returns RateLimited(job) without consulting the inner router",
  "C13.R7": "worker_complete dispatches the next job only when the completion matched an in-flight key; worker_finished_job retires a draining worker only if it is not working, otherwise keeps it; routes more work only to non-draining workers",
  "C13.R9": "Factory::post_stop hands every waiting job to the discard handler with reason Shutdown: the factory queue (Queue::pop_front cycle) and each worker's private queue (taken through a WorkerProperties helper or directly)",
+ "C13.R11": "= C15.R6: dispatch while draining discards with Shutdown and rejects; a pool grown back over a retiring worker clears its retiring mark unconditionally (a slot inside the pool never loses its worker while jobs are still routed to it)",
  "C13.R10": "= C15.R7: pool and actor->wid index are updated together (a worker the index does not know is never replaced, its queued jobs are stranded)",
  "C13.R8": "= C15.R5: Drained only when all of pool.values() (unfiltered) are available and the queue is empty; the factory stops itself only on is_drained()",
 }
@@ -484,7 +485,16 @@ def r8(run, db):
     c15.r5(run, db)
 
 
-RULES = [{"id": "C13.R%d" % i, "fn": f, "quick": Q, "thorough": TH} for i, f in enumerate([r1, r2, r3, r4, r5, r6, r7, r8, r9, r10], 1)]
+def r11(run, db):
+    """= C15.R6: a job dispatched while the factory drains is discarded (Shutdown) and rejected, never parked; a pool grown back
+    over a retiring worker un-retires it whether or not it is idle -- otherwise it stops itself after its current job, the slot
+    stays empty, and every job routed to that slot is parked in the factory queue for good (`none silently disappears while
+    workers are healthy`)"""
+    from . import c15
+    c15.r6(run, db)
+
+
+RULES = [{"id": "C13.R%d" % i, "fn": f, "quick": Q, "thorough": TH} for i, f in enumerate([r1, r2, r3, r4, r5, r6, r7, r8, r9, r10, r11], 1)]
 from .etype import witness_rule
 RULES.append({"id": "C13.W", "fn": witness_rule(['W4JobNoClone', 'W6JobMoved']), "quick": [], "thorough": [], "no_db": True})
 DOC["C13.W"] = 'E-TYPE witnesses W4 (Job::clone is E0599) and W6 (use of a job after moving it into a dispatch message is E0382)'
